@@ -51,7 +51,103 @@ for key, arg in (('mapproxy.service.tile:TileServer.map', 'tile_request'),
     cls(key.rsplit('.', 1)[0], fields=dict(layers='opaque', md='opaque', max_tile_age='opaque', use_dimension_layers='bool',
                                            origin='opaque', matrix_sets='opaque', info_formats='opaque',
                                            request_parser='opaque', capabilities_class='opaque', fi_transformers='opaque'))
-    contract(key, props=['C20'], types={arg: 'opaque'}, returns='opaque', default_callee='opaque',
+    contract(key, props=['C20'], types={arg: 'opaque'}, returns='opaque', default_callee='opaque', opaque=['Response'],
              opaque_fields=SVC_FIELDS, stable_fields=['cacheable', 'timestamp', 'size'],
              opaque_spec=dict(SVC_SPEC, layer={'raises': ['RequestError'], 'returns': 'tuple[opaque,opt[opaque]]'}) if key.endswith('TileServer.map') else SVC_SPEC,
              raises={'RequestError': True}, trace=[_uncacheable_gets_no_store])
+
+
+# ---- Response.make_conditional / cache_headers -------------------------------------------------------------------------
+R = 'mapproxy.response:'
+cls(R + 'Response', fields=dict(response='opaque', _status='str', _timestamp='opt[real]', headers='dict[str,str]'))
+
+
+def _httpdate(ex, st, s):
+    """value of an HTTP date string: uninterpreted (email.utils.parsedate + calendar.timegm), None if malformed"""
+    import z3
+    from pyvc.values import VOpt, VReal, VNone, NONE
+    if isinstance(s, VNone):
+        return NONE
+    isnone = z3.Function('httpdate_isnone', z3.StringSort(), z3.BoolSort())
+    val = z3.Function('httpdate_val', z3.StringSort(), z3.RealSort())
+    t = s.val.t if isinstance(s, VOpt) else s.t
+    none_in = s.isnone if isinstance(s, VOpt) else z3.BoolVal(False)
+    return VOpt(z3.Or(none_in, isnone(t)), VReal(val(t)))
+
+
+ghost('httpdate', ['s'], _httpdate)
+contract('mapproxy.util.times:parse_httpdate', props=[], verify=False,
+         types=dict(date='opt[str]'), returns='opt[real]',
+         ensures=['result == httpdate(date)', 'implies(date is None, result is None)'])
+
+NM = "'304 Not Modified'"
+contract(R + 'Response.make_conditional', props=['C20'],
+         types=dict(req='opt[opaque]'), returns='none',
+         opaque_fields={'environ': 'dict[str,str]'}, stable_fields=['environ'],
+         inline=['status_code', '_status_set', '_etag_get'],
+         requires=["self._status != " + NM],
+         modifies=['self._status', 'self.response', 'self.headers'],
+         ensures=[
+             # a request carrying the current ETag is answered 304 with no body and no Content-type
+             """implies(req is not None and 'ETag' in old(self.headers) and 'HTTP_IF_NONE_MATCH' in req.environ
+                        and old(self.headers)['ETag'] == req.environ['HTTP_IF_NONE_MATCH'],
+                        self._status == %s and not ('Content-type' in self.headers))""" % NM,
+             # 304 is never sent unless the client's validator matches: ETag equal, or Last-Modified not newer than
+             # a well-formed If-Modified-Since
+             """implies(self._status == %s, req is not None and (
+                        ('ETag' in old(self.headers) and 'HTTP_IF_NONE_MATCH' in req.environ
+                         and old(self.headers)['ETag'] == req.environ['HTTP_IF_NONE_MATCH'])
+                        or (old(self._timestamp) is not None and 'HTTP_IF_MODIFIED_SINCE' in req.environ
+                            and httpdate(req.environ['HTTP_IF_MODIFIED_SINCE']) is not None
+                            and old(self._timestamp) <= httpdate(req.environ['HTTP_IF_MODIFIED_SINCE']))))""" % NM,
+             # otherwise nothing changes
+             "implies(self._status != %s, self._status == old(self._status))" % NM,
+             # all other headers are untouched
+             "forall_str(lambda k: implies(k != 'Content-type', (k in self.headers) == (k in old(self.headers)) and implies(k in self.headers, self.headers[k] == old(self.headers)[k])))",
+         ],
+         must_fail="self._status == " + NM)
+
+contract(R + 'Response.cache_headers', props=['C20'],
+         types=dict(timestamp='opt[real]', etag_data='opt[tuple[opt[real],opt[int]]]', max_age='opt[int]', no_cache='bool'),
+         returns='none', default_callee='inline',
+         opaque_spec={'format_date_time': {'returns': 'str', 'pure': True}, 'wsgiref.handlers.format_date_time': {'returns': 'str', 'pure': True}},
+         raises={'AssertionError': 'no_cache and ((timestamp is not None and timestamp != 0) or (max_age is not None and max_age != 0))'},
+         modifies=['self.headers', 'self._timestamp'],
+         ensures=[
+             # no-store directives exactly as requested
+             """implies(no_cache, 'Cache-Control' in self.headers and self.headers['Cache-Control'] == 'no-cache, no-store'
+                        and 'Pragma' in self.headers and self.headers['Pragma'] == 'no-cache'
+                        and 'Expires' in self.headers and self.headers['Expires'] == '-1')""",
+             # validators: an ETag appears only when etag_data is given; Last-modified only with a timestamp
+             "implies(etag_data is None, ('ETag' in self.headers) == ('ETag' in old(self.headers)))",
+             "implies(etag_data is not None, 'ETag' in self.headers)",
+             "implies(timestamp is None or timestamp == 0, ('Last-modified' in self.headers) == ('Last-modified' in old(self.headers)))",
+             "implies(timestamp is not None and timestamp != 0, self._timestamp == timestamp and 'Last-modified' in self.headers)",
+             # public caching only with a validator and a max age
+             """implies(not ((timestamp is not None and timestamp != 0) or etag_data is not None) or max_age is None,
+                        ('Cache-control' in self.headers) == ('Cache-control' in old(self.headers)))""",
+         ],
+         must_fail="'ETag' in self.headers")
+
+
+# the HTTP date is interpreted as GMT (calendar.timegm), never as local time
+def _parse_is_utc(ex, st, post, result):
+    import z3
+    from pyvc.values import eq
+    gm = T.evs(st, 'timegm')
+    mk = T.evs(st, 'mktime')
+    pd = T.evs(st, 'parsedate')
+    ok = not mk and len(pd) == 1
+    yield ('http_date_is_gmt', z3.BoolVal(ok and (len(gm) == 1 or result is None or not gm)),
+           'If-Modified-Since is parsed with email.utils.parsedate and converted with calendar.timegm (GMT), never mktime')
+    if gm:
+        yield ('result_is_timegm', eq(result, gm[-1][1].result), 'the result is the GMT timestamp')
+
+
+contract('mapproxy.util.times:parse_httpdate', props=['C20'],
+         types=dict(date='opt[str]'), returns='opt[real]', default_callee='opaque',
+         opaque_spec={'parsedate': {'returns': 'opt[tuple[int,int,int,int,int,int,int,int,int]]', 'pure': True},
+                      'timegm': {'returns': 'real', 'pure': True}, 'mktime': {'returns': 'real', 'pure': True}},
+         ensures=['result == httpdate(date)', 'implies(date is None, result is None)'],
+         assume_ensures=True,
+         trace=[_parse_is_utc])
